@@ -12,7 +12,9 @@ script:  c10 end <t> Q <cap0>:<start0>[:<close0>] <cap1>:<start1>[:<close1>] ...
 
 The driver explores the timed executions of Got.Model.Delayed (every transition through `Delayed.step`,
 maximal progress).  The model is nondeterministic only where the loop's select has both a pending tick and a
-pending request; both branches are explored and the observation must equal one of the outcomes.  The second
+pending request; both branches are explored and the observation must equal one of the outcomes.  If an exploration
+limit (steps / size of the state set) is reached before the observation was found among the outcomes, the line is
+answered `ok unchecked …` (judged by the oracle only): a truncated exploration never rejects.  The second
 nondeterminism — SendCallback on a CLOSED target queue that has room may take either select branch — is resolved from
 the observation (the request arrived or not), as in drv_taskq.
 -/
@@ -112,7 +114,8 @@ partial def explore (sc : Scn) (work : List Sim) (acc : List String) (budget : N
   match work with
   | [] => (acc, true)
   | sim :: rest =>
-    if budget = 0 then (acc, false) else
+    -- exploration limits (steps, size of the state set): the result is then incomplete and must not be used to reject
+    if budget = 0 || work.length > 20000 || acc.length > 5000 then (acc, false) else
     match nextInstant sc sim with
     | some t =>
       if t > sc.endT || sim.err then
@@ -193,7 +196,7 @@ def stepLine (_ : Unit) (line : String) : Unit × String :=
     if impl.isEmpty then ((), " || ".intercalate outs)
     else if outs.contains impl then ((), "ok")
     else if (outs.map (canonTie sc)).contains (canonTie sc impl) then ((), "ok tie-order")
-    else if !complete then ((), "reject exploration-budget-exhausted " ++ outs.headD "")
+    else if !complete then ((), "ok unchecked exploration-limit-reached")   -- a truncated exploration never rejects
     else ((), "reject " ++ outs.headD "<no outcome>")
 
 def main (_args : List String) : IO Unit := do
